@@ -100,15 +100,9 @@ def call(F, bi, st, t):
         ret = ("t", dty)
     F.write(st, dest["l"], proj_of(dest), ret)
     if name in ("core::slice::<impl [T]>::len", "core::str::<impl str>::len") and not dest["p"] and len(args) == 1:
-        x = args[0][0]
-        if x != BOT and x[0] == "r" and x[1][0] == "loc":
-            l = x[1][1]
-            st.lenof[dest["l"]] = ("pl", l, x[1][2], st.ver.get(l, 0))
-        elif x != BOT and x[0] == "r" and t["args"][0]["k"] in ("copy", "move"):
-            # by-value `&str` / `&[T]`: the length belongs to the referent of the (origin of the) operand
-            src = F.src_of(st, t["args"][0])
-            if src is not None:
-                st.lenof[dest["l"]] = ("pl", src[1], src[2] + (("*",),), src[3])
+        src = F.slice_src(st, t["args"][0], args[0][0])
+        if src is not None:
+            st.lenof[dest["l"]] = src
     if name in ("std::ops::RangeInclusive::<Idx>::contains", "std::ops::Range::<Idx>::contains") and not dest["p"] and len(args) == 2:
         rng = deref_val(F, st, args[0][0])
         x = args[1][0]
